@@ -55,11 +55,6 @@ fn to_buf(word: u64, guard: u64) -> [u8; GUARD] {
     b
 }
 
-fn word_of(b: &[u8; GUARD], nbytes: usize) -> u64 {
-    let mut w = [0u8; 8];
-    w[..nbytes].copy_from_slice(&b[..nbytes]);
-    u64::from_le_bytes(w)
-}
 
 fn low_mask(bits: u32) -> u64 {
     if bits >= 64 { !0 } else { (1u64 << bits) - 1 }
@@ -81,6 +76,16 @@ fn do_write(write: &dyn Fn(&mut [u8]), w0: u64, nbytes: usize, guard: u64) -> Re
     let fill = guard.rotate_left(17) & !nb_mask(nbytes);
     let mut b = to_buf((w0 & nb_mask(nbytes)) | fill, guard);
     out::guarded(|| write(&mut b))?;
+    // self-validation only: corrupt what the oracle reads, as a wrong encoder would
+    match out::mutant() {
+        "insn_flip_bit7" => b[0] ^= 0x80,
+        "insn_keep_low_field_bit" => {
+            // an encoder that forgets to clear bit 12 (inside most immediate fields)
+            b[1] |= (((w0 >> 12) & 1) as u8) << 4;
+        }
+        "insn_touch_next_byte" => b[nbytes] ^= 1,
+        _ => {}
+    }
     let after = u64::from_le_bytes(b[..8].try_into().unwrap());
     let g = u64::from_le_bytes(b[8..].try_into().unwrap());
     Ok(Obs { got: after & nb_mask(nbytes), beyond: g != guard || (after & !nb_mask(nbytes)) != fill })
@@ -286,7 +291,7 @@ fn judge(c: &Case, write: &dyn Fn(&mut [u8]), fv: u64, guard: u64, cnt: &mut Cnt
     let k = c.k;
     let fm = k.field_mask();
     let exp = (c.w0 & !fm & nb_mask(k.nbytes)) | k.place(fv);
-    cnt.writes += 1;
+    cnt.writes += 2;
     let sample = |got: Option<u64>| {
         format!(
             "\"arch\":\"{}\",\"what\":\"{}\",\"template\":\"{}\",\"word_before\":\"0x{:x}\",{},\"got\":\"{}\",\"want\":\"0x{:x}\",\"field_mask\":\"0x{:x}\"",
@@ -300,45 +305,58 @@ fn judge(c: &Case, write: &dyn Fn(&mut [u8]), fv: u64, guard: u64, cnt: &mut Cnt
             fm
         )
     };
+    let report = |what: &str, label: &str, got: Option<u64>, extra: String, cnt: &mut Cnt| {
+        cnt.mism += 1;
+        out::mismatch(&format!("{}:{}:{}", c.arch, label, what), || format!("{}{}", sample(got), extra));
+    };
+    let nbm = nb_mask(k.nbytes);
+    // 1. the write into the same word with the field pre-cleared: content and locality
+    let wz = c.w0 & !fm & nbm;
+    let gz = match do_write(write, wz, k.nbytes, guard) {
+        Ok(o) => o,
+        Err((loc, msg)) => {
+            report(&format!("panic@{}", out::panic_site(&loc)), c.label, None, format!(",\"panic\":\"{}\"", out::esc(&msg)), cnt);
+            return None;
+        }
+    };
+    if gz.beyond {
+        report("writes-beyond-instruction", c.dep_label, Some(gz.got), String::new(), cnt);
+        return None;
+    }
+    if k.decode_checked && gz.got != exp {
+        let dec = k.gather(gz.got);
+        let extra = format!(",\"word_with_cleared_field\":\"0x{wz:x}\",\"decoded_field\":\"0x{dec:x}\",\"expected_field\":\"0x{:x}\"", fv & k.fv_mask());
+        if (gz.got & fm) == (exp & fm) {
+            report("changes-bits-outside-field", c.dep_label, Some(gz.got), extra, cnt);
+        } else {
+            report("wrong-field-content", c.label, Some(gz.got), extra, cnt);
+        }
+        return None;
+    }
+    if (gz.got ^ wz) & !fm & nbm != 0 {
+        report("changes-bits-outside-field", c.dep_label, Some(gz.got), String::new(), cnt);
+        return None;
+    }
+    // 2. the write into the word as given (field pre-filled)
     let o = match do_write(write, c.w0, k.nbytes, guard) {
         Ok(o) => o,
         Err((loc, msg)) => {
-            cnt.mism += 1;
-            out::mismatch(&format!("{}:{}:panic@{}", c.arch, c.label, out::panic_site(&loc)), || {
-                format!("{},\"panic\":\"{}\"", sample(None), out::esc(&msg))
-            });
+            report(&format!("panic@{}", out::panic_site(&loc)), c.label, None, format!(",\"panic\":\"{}\"", out::esc(&msg)), cnt);
             return None;
         }
     };
     if o.beyond {
-        cnt.mism += 1;
-        out::mismatch(&format!("{}:{}:writes-beyond-instruction", c.arch, c.label), || sample(Some(o.got)));
+        report("writes-beyond-instruction", c.dep_label, Some(o.got), String::new(), cnt);
         return None;
     }
-    if (o.got ^ c.w0) & !fm & nb_mask(k.nbytes) != 0 {
-        cnt.mism += 1;
-        out::mismatch(&format!("{}:{}:changes-bits-outside-field", c.arch, c.label), || sample(Some(o.got)));
+    if (o.got ^ c.w0) & !fm & nbm != 0 {
+        report("changes-bits-outside-field", c.dep_label, Some(o.got), String::new(), cnt);
         return None;
     }
-    // same write with the field pre-cleared
-    let wz = c.w0 & !fm;
-    let gz = match do_write(write, wz, k.nbytes, guard) {
-        Ok(o) => o.got,
-        Err(_) => return None,
-    };
-    if (gz & fm) != (o.got & fm) {
-        cnt.mism += 1;
-        out::mismatch(&format!("{}:{}:depends-on-previous-field", c.arch, c.dep_label), || {
-            format!("{},\"got_with_cleared_field\":\"0x{gz:x}\"", sample(Some(o.got)))
-        });
-        return None;
-    }
-    if k.decode_checked && o.got != exp {
-        cnt.mism += 1;
-        let dec = k.gather(o.got);
-        out::mismatch(&format!("{}:{}:wrong-field-content", c.arch, c.label), || {
-            format!("{},\"decoded_field\":\"0x{dec:x}\",\"expected_field\":\"0x{:x}\"", sample(Some(o.got)), fv & k.fv_mask())
-        });
+    // the union mask of a locality-only kind may be wider than the real field: preserving bits
+    // there is not a defect, so independence is judged only where the field is known exactly
+    if k.decode_checked && (gz.got & fm) != (o.got & fm) {
+        report("depends-on-previous-field", c.dep_label, Some(o.got), format!(",\"got_with_cleared_field\":\"0x{:x}\"", gz.got), cnt);
         return None;
     }
     Some(o.got)
@@ -354,7 +372,7 @@ fn direct_kind(k: &Kind, seed: u64, n_random: u64, n_words: usize, exh_bits: u32
     let negs: &[bool] = if k.pre == Pre::MovNZ { &[false, true] } else { &[false] };
     let label = k.name;
 
-    let mut run_value = |ev: u64, words: usize, r: &mut Rng, cnt: &mut Cnt| {
+    let run_value = |ev: u64, words: usize, r: &mut Rng, cnt: &mut Cnt| {
         for &neg in negs {
             cnt.values += 1;
             let fv = k.field_value(ev, neg);
